@@ -147,8 +147,17 @@ def valid_case(draw, tier="quick"):
         pts += [bnd - 5 * step, bnd - step, bnd, bnd + step, bnd + 5 * step]
     xs = draw(st.lists(st.one_of(st.sampled_from(pts), val), min_size=n, max_size=n))
     xs = draw(gen.overlay_missing(xs, markers=st.just(None)))
-    return {"kind": kind, "x": xs, "lo": lo_c, "hi": hi_c, "si": draw(st.booleans()), "ei": draw(st.booleans()),
-            "unit": draw(st.sampled_from(UNITS)), "absent_as": draw(st.sampled_from(["none", "nan"])),
+    unit = draw(st.sampled_from(UNITS))
+    extra = {}
+    if kind == "dt" and draw(st.integers(0, 2)) == 0:
+        # data finer than the (whole-second) bounds: sub-second instants just inside / outside a bound, bounds possibly
+        # carried in a coarser unit than the data, dtype= possibly given explicitly
+        unit = draw(st.sampled_from(["ms", "us", "ns"]))
+        xs = [v if v is None else v + draw(st.sampled_from([0.0, 0.0, 0.5, -0.5, 0.125])) for v in xs]
+        extra = {"bound_unit": draw(st.sampled_from(["same", "s"])),
+                 "dtype_param": draw(st.sampled_from([None, "datetime64", "unit"]))}
+    return {"kind": kind, "x": xs, "lo": lo_c, "hi": hi_c, "si": draw(st.booleans()), "ei": draw(st.booleans()), **extra,
+            "unit": unit, "absent_as": draw(st.sampled_from(["none", "nan"])),
             "bound_type": draw(st.sampled_from(["np", "py"])), "span_kind": draw(st.sampled_from(["list", "tuple"])),
             "defaults": draw(st.integers(0, 3)) == 0,
             # missing values as NaN/NaT, or as masked elements hiding NaN or a finite value (inside or far outside the span)
@@ -166,7 +175,7 @@ def _valid_inputs(case):
                 return None if case["absent_as"] == "none" else NAN
             return float(v) if case["bound_type"] == "py" else np.float64(v)
     else:
-        a = np.array([np.datetime64("NaT") if v is None else np.datetime64(int(v), "s") for v in case["x"]],
+        a = np.array([np.datetime64("NaT") if v is None else np.datetime64(int(round(float(v) * 1000)), "ms") for v in case["x"]],
                      dtype=f"datetime64[{unit}]")
 
         def bnd(v):
@@ -174,7 +183,8 @@ def _valid_inputs(case):
                 return None if case["absent_as"] == "none" else np.datetime64("NaT")
             if case["bound_type"] == "py":
                 return dtm.datetime(1970, 1, 1) + dtm.timedelta(seconds=int(v))
-            return np.datetime64(int(v), "s").astype(f"datetime64[{unit}]")
+            bu = unit if case.get("bound_unit", "same") == "same" else "s"
+            return np.datetime64(int(v), "s").astype(f"datetime64[{bu}]")
     mc = case.get("mask_carrier", "none")
     if mc != "none":
         mask = np.array([v is None for v in case["x"]], dtype=bool)
@@ -208,6 +218,9 @@ def check_valid(case, rec):
     rec.note(on, labels)
     a, span = _valid_inputs(case)
     kw = {} if case.get("defaults") else {"start_inclusive": si, "end_inclusive": ei}
+    if case.get("dtype_param") and case.get("bound_type") == "np":
+        kw["dtype"] = "datetime64" if case["dtype_param"] == "datetime64" else f"datetime64[{case['unit']}]"
+        labels.append("dtype_given")
     site = "axds.valid_range_test"
     got = flags(rec, site, rec.call(site, _vr(), a, span, **kw), len(x))
     if got is SKIP:
